@@ -234,6 +234,55 @@ theorem getChildren_eq {h : Heap} (T : TreeHeap h) (sel fol : Nat → Bool) (cf 
   rw [follow_eq T sel fol cf fuel root [] (by simp)]
   simp
 
+/-! ## pruning (type-directed search that skips sub-trees) -/
+
+theorem flatMap_filter_nil {α β : Type} (l : List α) (p : α → Bool) (g : α → List β)
+    (hn : ∀ a ∈ l, p a = false → g a = []) : (l.filter p).flatMap g = l.flatMap g := by
+  induction l with
+  | nil => rfl
+  | cons a l ih =>
+    have ih' := ih (fun b hb => hn b (List.mem_cons_of_mem _ hb))
+    cases hp : p a with
+    | true => simp [hp, ih']
+    | false => simp [hp, ih', hn a List.mem_cons_self hp]
+
+/-- refusing to descend into objects below which nothing is selected does not change the selected
+part of the traversal (as a list: same objects, same order) -/
+theorem descO_filter_prune {h : Heap} (sel fol worth : Nat → Bool) (cf : Bool)
+    (hw : ∀ y, worth y = false → ∀ x, Reach h fol y x → sel x = false) :
+    ∀ f x, (descO h (fun c => worth c && fol c) cf f x).filter sel = (descO h fol cf f x).filter sel := by
+  intro f
+  induction f with
+  | zero => intro x; simp [descO]
+  | succ f ih =>
+    intro x
+    unfold descO
+    cases hx : h.get x with
+    | none => rfl
+    | some o =>
+      simp only []
+      have key : ((o.contIds.filter (fun c => worth c && fol c)).flatMap
+            (descO h (fun c => worth c && fol c) cf f)).filter sel
+          = ((o.contIds.filter fol).flatMap (descO h fol cf f)).filter sel := by
+        rw [List.filter_flatMap, List.filter_flatMap]
+        have e1 : o.contIds.filter (fun c => worth c && fol c) = (o.contIds.filter fol).filter worth := by
+          rw [List.filter_filter]
+        rw [e1]
+        have e2 : ((o.contIds.filter fol).filter worth).flatMap
+              (fun c => (descO h (fun c => worth c && fol c) cf f c).filter sel)
+            = ((o.contIds.filter fol).filter worth).flatMap (fun c => (descO h fol cf f c).filter sel) := by
+          congr 1; funext c; exact ih c
+        rw [e2]
+        apply flatMap_filter_nil
+        intro c _ hwc
+        rw [List.filter_eq_nil_iff]
+        intro y hy
+        have hr := desc_reach f c y ((mem_descO_iff h fol cf f c y).1 hy)
+        simp [hw c hwc y hr]
+      cases cf with
+      | false => simp only [Bool.false_eq_true, if_false, List.filter_cons, key]
+      | true => simp only [if_true, List.filter_append, key]
+
 /-! ## order -/
 
 theorem sublist_flatMap_of_mem {α β : Type} {l : List α} {f : α → List β} {a : α} (ha : a ∈ l) :
